@@ -13,10 +13,11 @@ Theorem K17_nullable : forall (p: fplan),
 Proof. exact K17_nullable_lemma. Qed.
 Print Assumptions K17_nullable.
 
-(* non-vacuity: Final[Annotated[Optional[...], ...]] is nullable, Union[A, B, None] is not,
-   a plain type with default None is *)
+(* non-vacuity: Final[Annotated[Optional[...], ...]] and Union[A, B, None] are nullable,
+   a plain type only with default None *)
 Example K17_nullable_example :
   is_field_nullable KMissing (enc_fty (TyFinal (TyAnnotated TyOptional))) = Ok (KBool true) /\
-  is_field_nullable KMissing (enc_fty TyUnionNone) = Ok (KBool false) /\
+  is_field_nullable KMissing (enc_fty TyUnionNone) = Ok (KBool true) /\
+  is_field_nullable KMissing (enc_fty TyPlain) = Ok (KBool false) /\
   is_field_nullable KNone (enc_fty TyPlain) = Ok (KBool true).
 Proof. repeat split; reflexivity. Qed.
